@@ -64,7 +64,9 @@ class Prop:
         self.fails.append({"kind": kind, "sig": sig, "desc": desc, "case": case})
 
     def too_many(self):
-        return len(self.fails) >= 25
+        """stop a phase after 25 failures of that phase's kind"""
+        kind = getattr(self, "phase", None)
+        return sum(1 for f in self.fails if kind is None or f["kind"] == kind) >= 25
 
     def driver(self):
         if self.drv is None:
@@ -89,10 +91,13 @@ def run_main(cls):
             nc, ns = p.budget[args.tier]
             if args.proof_status != "ok":
                 ns *= 3   # a tie broke: search harder for a concrete failing input
+            p.phase = "search"
             p.corpus()
+            p.phase = "corr"
             p.correspond(nc)
             if any(f["kind"] == "corr" for f in p.fails):
                 ns *= 3
+            p.phase = "search"
             p.search(ns)
     except Exception:  # noqa: BLE001
         res["fault"] = traceback.format_exc()
